@@ -14,7 +14,7 @@ RULE = ('laws: a generated tree (dict with str/int keys, list, tuple, ndarray, s
         'node, fresh dict key, list append, fresh multi-level suffix, ndarray element, SELF); views: leaf enumeration, '
         'multi-key reads, Literal/SELF/SKIP keys, key_paths, apply(map_fn), copy_and_update; non-trivial = tree depth >= 2 '
         'and the (first) path shares a proper prefix with another leaf; distinct = distinct canonical case JSON'
-        '; also: shared sub-containers, plain "SELF"/"SKIP" and tuple-typed dict keys, array views, repeated paths in pair updates (list and generator), wide trees of 33..70 rows, sets made through the view a previous set returned, unsettable paths (append position followed by an impossible component)')
+        '; also: sets through negative indices, tuple-typed dict keys given as plain tuples in multi-key reads, apply() over selected key paths, shared sub-containers, plain "SELF"/"SKIP" and tuple-typed dict keys, array views, repeated paths in pair updates (list and generator), wide trees of 33..70 rows, sets made through the view a previous set returned, unsettable paths (append position followed by an impossible component)')
 ASSUMPTIONS = [
     'reference = vlib/oracles/tree_ref.py (copy-on-write set, DFS leaf enumeration) written from the TreeMapView docstrings',
     'root is a container; dict keys may be the plain strings "SELF"/"SKIP" (the reserved keys are the Key.SELF / Key.SKIP objects); '
@@ -72,6 +72,12 @@ def run_laws(case):
     value_model = tr.decode(op['value'])
     snap = tr.snapshot(cur)
     key = _key(path) if path else tree.Key.SELF
+    if op.get('neg') and path:
+      alias, node = [], cur
+      for kind_, k_ in path:
+        alias.append((kind_, k_ - len(node)) if kind_ == 'i' and not isinstance(node, np.ndarray) else (kind_, k_))
+        node = node[k_]
+      key = _key(tuple(alias))
     if len(path) == 1 and op.get('raw') and path[0][0] == 'k' and not isinstance(path[0][1], tuple):
       key = path[0][1]   # a bare key instead of a Key path
     what = f'op {oi}: TreeMapView({snap!r}).copy_and_set({key!r}, {value!r})'
@@ -202,7 +208,10 @@ def strat_laws(tier):
         vj = {'v': draw(st.integers(10, 20))}
       else:
         vj = draw(_tree(2, True))
-      ops.append({'path': path, 'value': vj, 'raw': draw(st.booleans())})
+      op = {'path': path, 'value': vj, 'raw': draw(st.booleans())}
+      if kind == 'existing' and draw(st.integers(0, 3)) == 0:
+        op['neg'] = True           # index components of an existing path are written from the end (-1 is the last element)
+      ops.append(op)
       model = tr.ref_set(model, tr.npath(path), tr.decode(vj))
       if not tr.is_container(model):
         break
@@ -263,7 +272,7 @@ def run_views(case):
         'items-misaligned', f'{what}.items() = {items!r}')
   # multi-key read: aligned with the keys, mixing paths, Literal and SELF
   lit = object()
-  multi, want = [], []
+  multi, want, raw_at = [], [], set()
   for m in case['multi']:
     if m == 'LIT':
       multi.append(tree.Key.Literal(lit)); want.append(lit)
@@ -271,19 +280,39 @@ def run_views(case):
       multi.append(tree.Key.SELF); want.append(data)
     else:
       p = tr.npath(m)
-      multi.append(_key(p) if (len(p) != 1 or p[0][0] == 'i' or case.get('as_key') or isinstance(p[0][1], tuple)) else p[0][1])
+      if len(p) == 1 and p[0][0] == 'k' and isinstance(p[0][1], tuple) and case.get('raw_tuple_keys'):
+        multi.append(p[0][1])      # a tuple-typed dict key given as a plain tuple inside the multi-key tuple: one literal key
+        raw_at.add(len(multi) - 1)
+      else:
+        multi.append(_key(p) if (len(p) != 1 or p[0][0] == 'i' or case.get('as_key') or isinstance(p[0][1], tuple)) else p[0][1])
       want.append(tr.ref_get(data, p))
   if multi:
     got = _guard(lambda: view[tuple(multi)], f'{what}[{tuple(multi)!r}]')
     check(isinstance(got, tuple) and len(got) == len(want) and all(_same(g, w) for g, w in zip(got, want)),
           'multi-key-misaligned', f'{what}[{tuple(multi)!r}] = {got!r}, want {want!r}')
     # key_paths restricts iteration to the given keys, in the given order (None values filtered: documented)
+    # (key_paths holds Key objects: there a plain tuple is not a literal key)
+    multi = [_key(tr.npath(case['multi'][i_])) if i_ in raw_at else m for i_, m in enumerate(multi)]
     kp = tuple(m for m, w in zip(multi, want))
     v2 = tree.TreeMapView(data, key_paths=kp)
     exp = [(k, w) for k, w in zip(multi, want) if w is not None]
     got_items = _guard(lambda: [(k, v2[k]) for k in v2], f'{what} with key_paths')
     check(len(got_items) == len(exp) and all(gk is ek and _same(gv, ev) for (gk, gv), (ek, ev) in zip(got_items, exp)),
           'key_paths-iteration-differs', f'{what} key_paths={kp!r}: {got_items!r}')
+    # apply() over selected key paths: exactly those paths are replaced by their mapped value, the viewed data stays as it was
+    sel = [(k, tr.npath(m)) for k, m in zip(multi, case['multi']) if m not in ('LIT', 'SELF')]
+    sel = [(k, p_) for k, p_ in sel if tr.ref_get(data, p_) is not None]
+    unrelated = all(not tr.related(a[1], b[1]) for i_, a in enumerate(sel) for b in sel[i_ + 1:])
+    if sel and unrelated and not shared:
+      wrap = lambda v: ('W', v)
+      model_sel = data
+      for _, p_ in sel:
+        model_sel = tr.ref_set(model_sel, p_, wrap(tr.ref_get(data, p_)))
+      kp_sel = tuple(k for k, _ in sel)
+      got_sel = _guard(lambda: tree.TreeMapView.as_view(data, key_paths=kp_sel, map_fn=wrap).apply(), f'{what} key_paths={kp_sel!r} apply()')
+      check(tr.deep_equal(got_sel, model_sel), 'apply-over-key-paths-differs',
+            f'as_view({snap!r}, key_paths={kp_sel!r}, map_fn=wrap).apply() = {got_sel!r}, reference {model_sel!r}')
+      check(tr.deep_equal(data, snap), 'original-mutated', f'as_view({snap!r}, key_paths={kp_sel!r}, map_fn=wrap).apply() changed the viewed data: {data!r}')
   check(_guard(lambda: view[()], f'{what}[()]') == (), 'empty-multikey', '')
   # apply: maps every leaf and only leaves, keeps container types, source unchanged
   mapped = _guard(lambda: tree.TreeMapView.as_view(data, map_fn=_tag).apply(), f'{what}.apply(map_fn)')
@@ -368,7 +397,8 @@ def strat_views(tier):
       except (TypeError, KeyError, IndexError, AssertionError):
         pass
     upd2 = upd
-    return {'tree': tj, 'multi': multi, 'update': upd2, 'as_key': draw(st.booleans()), 'share': share}
+    return {'tree': tj, 'multi': multi, 'update': upd2, 'as_key': draw(st.booleans()), 'share': share,
+            'raw_tuple_keys': draw(st.booleans())}
   return s()
 
 
